@@ -116,7 +116,7 @@ PROPS = {
         shards={"quick": 8, "thorough": 16},
     ),
     "C04": dict(
-        pkg=".", test="TestVerifC04", model="C04", verdict="C04v", level="proof", diff_is_failure=True,
+        pkg=".", test="TestVerifC04", model="C04", verdict="C04v", level="proof", diff_is_failure=True, also=["C16"],
         # after a cancellation the consumer races with ctx.Done: accept any prefix-consistent answer
         accept=lambda m, o: m == "-" or (" " + m + " ") in (" " + o + " ") or all(t in o for t in m.split()) or "err=canceled" in o,
         rule="a case is a GetValue or SearchValue (quorum 0,1,2,K) on a scripted network whose responders hold valid "
@@ -128,7 +128,7 @@ PROPS = {
         shards={"quick": 8, "thorough": 16},
     ),
     "C06": dict(
-        pkg=".", test="TestVerifC06", model="C06", verdict="C06v", level="proof", diff_is_failure=True,
+        pkg=".", test="TestVerifC06", model="C06", verdict="C06v", level="proof", diff_is_failure=True, also=["C16"],
         accept=lambda m, o: m == "-" or m == "recipients=*" or all((" " + t + " ") in (" " + o + " ") for t in m.split(" ")),
         rule="a case is a PutValue (valid/invalid value, optional better/worse local record), a Provide (classic or optimistic; "
              "advertised address classes with and without a filter, possibly none passing) or a value search on a scripted "
@@ -153,6 +153,25 @@ PROPS = {
         trusted=["scripted MessageSender per inner DHT + simnet + synctest", "go-multiaddr CIDR tables transcribed by hand (compared on every run at each boundary)",
                  "FindProvidersAsync's provider shuffle and channel select are not modelled: the yielded set is compared when it is determined, its size always"],
         shards={"quick": 8, "thorough": 16},
+    ),
+    "C16": dict(
+        pkg="./fullrt", test="TestVerifC16", model="C16", verdict="C16v", level="proof", diff_is_failure=False, stateless=True, also=["C16c"],
+        accept=lambda m, o: m == "-" or all((" " + t + " ") in (" " + o + " ") for t in m.split(" ")),
+        rule="a case is one operation on a real NewFullRT client (fake host, a crawler that reports a generated peer set "
+             "with 1-3 addresses per peer in shared IPv4 /16 groups and the unknown-ASN IPv6 group, public options only): "
+             "GetClosestPeers for K in {1..8} and a configured limit in {0,1,2,3,default}; every single and bulk operation "
+             "on an empty table and with values/providers disabled; GetValue through the crawled table with a local record "
+             "that has expired since it was stored, invalid remote records and corrective puts; a crawl on a generated "
+             "topology (sibling harness). Compared: the returned peers, error classes, returned value, corrective puts and "
+             "the state of their context; non-trivial = >=4 crawled peers or an operation case; distinct = case text",
+        trusted=["fake crawler + scripted MessageSender + simnet + synctest", "go-libp2p-xor ClosestN and kbucket IPGroupKey are dependencies (their answers are inputs of the case: groups are read back from the client)"],
+        shards={"quick": 8, "thorough": 16},
+    ),
+    # sibling harness of C16: the real DefaultCrawler on generated topologies (not a property of its own)
+    "C16c": dict(
+        pkg="./crawler", test="TestVerifC16c", model="C16c", verdict="C16cv", level="proof", diff_is_failure=False, stateless=True,
+        rule="a crawl of the real DefaultCrawler (scripted sender, parallelism 1/2/3/8) on a generated topology with failing, "
+             "undialable and silent-list peers, seeds with duplicates and without addresses", trusted=[], shards={"quick": 4, "thorough": 16},
     ),
     "C08": dict(
         pkg=".", test="TestVerifC08", model="C08", verdict="C08v", level="proof", diff_is_failure=True, also=["C15"],
